@@ -32,7 +32,8 @@ def check(ctx):
     fn = fu.node
     pm = parent_map(fn)
     # ---- R12.1: interpret the `if options.adaptive:` block ---------------------------------
-    blocks = [n for n in own_nodes(fn) if isinstance(n, ast.If) and norm(n.test) in ("options.adaptive", "self.options.adaptive")
+    from ..dataflow import expanded_text
+    blocks = [n for n in own_nodes(fn) if isinstance(n, ast.If) and expanded_text(fn, n.test) in ("options.adaptive", "self.options.adaptive")
               and not any(isinstance(g, (ast.For, ast.While)) for g, _ in guards_of(fn, n, pm))]
     if len(blocks) != 1:
         # the rule block is not under `if options.adaptive`: judge where the tentative step is assigned instead
@@ -59,11 +60,27 @@ def check(ctx):
     decided = []
 
     def policy(test, fr):
-        decided.append(norm(test))
+        decided.append(expanded_text(fn, test))
         return True
     ip.branch_policy = policy
-    fr = Frame(fu, fu.module, {"self": me, "options": opts, "xp": ModRef("numpy"), "dt": dt, "abs_sq_psi": a2,
-                               "old_sq_psi": old, "step": T.real("step")})
+    # locals of update() by role, not by name
+    env = {"self": me}
+    calls = [n for n in own_nodes(fn) if isinstance(n, ast.Assign) and isinstance(n.value, ast.Call)
+             and norm(n.value.func) == "self.adaptive_euler_step"]
+    if len(calls) != 1 or not isinstance(calls[0].targets[0], ast.Tuple) or len(calls[0].targets[0].elts) != 3 or len(calls[0].value.args) < 3:
+        raise AnalysisError("update() no longer has `psi, abs_sq_psi, dt = self.adaptive_euler_step(step, psi, old_sq_psi, ...)`")
+    tg = calls[0].targets[0].elts
+    env[norm(tg[1])] = a2
+    env[norm(tg[2])] = dt
+    env[norm(calls[0].value.args[2])] = old
+    env[norm(calls[0].value.args[0])] = T.real("step")
+    for n in own_nodes(fn):
+        if isinstance(n, ast.Assign) and len(n.targets) == 1 and isinstance(n.targets[0], ast.Name):
+            if norm(n.value) == "self.options":
+                env[n.targets[0].id] = opts
+            elif norm(n.value) == "self.xp":
+                env[n.targets[0].id] = ModRef("numpy")
+    fr = Frame(fu, fu.module, env)
     try:
         ip.exec_block(blk.body, fr)
     except Unsupported as e:
@@ -86,7 +103,7 @@ def check(ctx):
            detail={"got": str(new), "want": str(want_clip)}, where=fu.fq, construct="self.tentative_dt",
            loc=loc(fu, blk), message=f"proposed step is {new}",
            consequence="the adaptive step does not follow the documented rule (eq. dt-tentative)")
-    ok = any(">" in d and "window" in d and "step" in d and ">=" not in d for d in decided)
+    ok = any(">" in d and "adaptive_window" in d and "step" in d and ">=" not in d for d in decided)
     ctx.ob("R12.1", "the rule applies only for step > window (warm-up)", ok, detail=decided, where=fu.fq,
            construct="warm-up guard", loc=loc(fu, blk), message=f"guards decided: {decided}",
            consequence="the step is adapted before the window is filled (mean over fewer values than documented)")
@@ -103,7 +120,7 @@ def check(ctx):
                 st = n
                 while not isinstance(st, ast.stmt):
                     st = pmf[id(st)][0]
-                g = [norm(x.test) for x, br in guards_of(f.node, st, pmf) if isinstance(x, ast.If) and br == "true"]
+                g = [expanded_text(f.node, x.test) for x, br in guards_of(f.node, st, pmf) if isinstance(x, ast.If) and br == "true"]
                 if not any(t.endswith("options.adaptive") for t in g):
                     bad.append(f"{f.qual} L{st.lineno}: {norm(st)}")
     ctx.ob("R12.2", "every reassignment of tentative_dt is under `options.adaptive`", not bad and nstores >= 1,
@@ -210,30 +227,58 @@ def step_reported(ctx, fu):
     fn = fu.node
     pm = parent_map(fn)
     asg = assignments(fn)
-    dts = asg.get("dt", [])
+    from ..dataflow import expanded_text
+    # the step variable by role: third result of adaptive_euler_step
+    calls = [n for n in own_nodes(fn) if isinstance(n, ast.Assign) and isinstance(n.value, ast.Call)
+             and norm(n.value.func) == "self.adaptive_euler_step" and isinstance(n.targets[0], ast.Tuple) and len(n.targets[0].elts) == 3]
+    if len(calls) != 1:
+        raise AnalysisError("update() no longer unpacks three results of self.adaptive_euler_step")
+    dtn = norm(calls[0].targets[0].elts[2])
+    dts = asg.get(dtn, [])
     srcs = []
     for s, v in dts:
-        g = [("" if br == "true" else "not ") + norm(x.test) for x, br in guards_of(fn, s, pm) if isinstance(x, ast.If)]
+        g = [("" if br == "true" else "not ") + expanded_text(fn, x.test) for x, br in guards_of(fn, s, pm) if isinstance(x, ast.If)]
         srcs.append((norm(v) if v is not None else norm(s)[:70], g))
     from_step = [x for x in srcs if "adaptive_euler_step" in x[0]]
     from_tent = [x for x in srcs if x[0] == "self.tentative_dt"]
-    ok = len(srcs) == 2 and len(from_step) == 1 and len(from_tent) == 1 and from_tent[0][1] == ["screening_iteration == 0"]
+    # "screening iteration 0": the guard compares the loop variable of the screening loop with 0
+    loopvars = {norm(l.target) for l in own_nodes(fn) if isinstance(l, ast.For) and any(x is calls[0] for x in ast.walk(l))}
+    ok = len(srcs) == 2 and len(from_step) == 1 and len(from_tent) == 1 and len(from_tent[0][1]) == 1 and \
+        any(from_tent[0][1][0] in (f"{v} == 0", f"0 == {v}") for v in loopvars)
     ctx.ob("R12.4", "dt is (re)assigned only from tentative_dt in screening iteration 0 and from adaptive_euler_step", ok,
            detail=srcs, where=fu.fq, construct="definitions of dt in update", loc=loc(fu, fn),
            message=f"dt definitions: {srcs}", consequence="a later screening iteration restarts from the tentative step, or dt is altered after the solve")
     rec = [n for n in own_nodes(fn) if isinstance(n, ast.Call) and norm(n.func) == "running_state.append"
            and n.args and isinstance(n.args[0], ast.Constant) and n.args[0].value == "dt"]
-    ok = len(rec) == 1 and norm(rec[0].args[1]) == "dt"
+    ok = len(rec) == 1 and norm(rec[0].args[1]) == dtn
     ctx.ob("R12.4", "the recorded dt is the variable dt", ok, detail=[norm(r) for r in rec], where=fu.fq,
            construct="running_state.append('dt', ...)", message=f"{[norm(r) for r in rec]}",
            consequence="running_state/dt differs from the step actually taken")
-    res = [v for s, v in asg.get("results", []) if isinstance(v, ast.List)]
-    ok = len(res) == 1 and norm(res[0].elts[0]) == "dt"
+    rets = [n for n in own_nodes(fn) if isinstance(n, ast.Return) and isinstance(n.value, ast.Call) and norm(n.value.func) == "SolverResult"]
+    first = None
+    res = []
+    if len(rets) == 1 and rets[0].value.args:
+        a0 = rets[0].value.args[0]
+        if isinstance(a0, ast.Starred) and isinstance(a0.value, ast.Name):
+            res = [v for s, v in asg.get(a0.value.id, []) if isinstance(v, ast.List)]
+            first = norm(res[0].elts[0]) if len(res) == 1 and res[0].elts else None
+        else:
+            first = norm(a0)
+    ok = first == dtn
     ctx.ob("R12.4", "SolverResult.dt is the variable dt", ok, detail=[norm(r)[:80] for r in res], where=fu.fq,
            construct="results[0]", message="the first result is not dt", consequence="the runner advances the clock by another step")
     fr = repo.func(RUNNER, "Runner._run_stage")
-    txt = [norm(n).replace("(", "").replace(")", "") for n in own_nodes(fr.node) if isinstance(n, (ast.Assign, ast.AugAssign))]
-    ok = "new_dt, *self.values = function_result" in txt and "self.dt = new_dt" in txt and "self.time += self.dt" in txt
+    # new_dt, *self.values = function_result ; self.dt = new_dt ; self.time += self.dt   (local names free)
+    unpack = [n for n in own_nodes(fr.node) if isinstance(n, ast.Assign) and isinstance(n.targets[0], ast.Tuple) and len(n.targets[0].elts) == 2
+              and isinstance(n.targets[0].elts[0], ast.Name) and isinstance(n.targets[0].elts[1], ast.Starred)
+              and norm(n.targets[0].elts[1].value) == "self.values"]
+    ok = False
+    if len(unpack) == 1:
+        v = unpack[0].targets[0].elts[0].id
+        sets_dt = [n for n in own_nodes(fr.node) if isinstance(n, ast.Assign) and norm(n.targets[0]) == "self.dt" and norm(n.value) == v]
+        adv = [n for n in own_nodes(fr.node) if isinstance(n, ast.AugAssign) and norm(n.target) == "self.time" and isinstance(n.op, ast.Add)
+               and norm(n.value) in ("self.dt", v)]
+        ok = len(sets_dt) == 1 and len(adv) == 1
     ctx.ob("R12.4", "the runner adds the returned dt to the clock", ok, where=fr.fq, construct="clock advance",
            loc=loc(fr, fr.node), message="the runner no longer advances self.time by the dt returned by the update",
            consequence="frame times are not the sum of the steps used")
